@@ -20,6 +20,8 @@ Definition absorb (acc : res conv) (rs : list record) (sens : bool) : res conv :
   fold_left (fun acc r => bind acc (fun a => add_record a r sens true)) rs acc.
 Lemma absorb_raise rs sens e : absorb (Raise e) rs sens = Raise e.
 Proof. induction rs; simpl; auto. Qed.
+Lemma absorb_cons c r rs sens : absorb (Val c) (r :: rs) sens = absorb (add_record c r sens true) rs sens.
+Proof. reflexivity. Qed.
 Lemma chain_absorb cs sens : cs <> [] -> chain fold_c cs sens = absorb (Val empty_conv) (flat_map recs cs) sens.
 Proof. destruct cs; [congruence|reflexivity]. Qed.
 
@@ -75,14 +77,14 @@ Lemma absorb_facts rs sens : forall c R, swf c -> absorb (Val c) rs sens = Val R
   (forall k, known_p R k -> known_p c k \/ exists r, In r rs /\ In k (all_prefixes r)) /\
   (forall k, known_u R k -> known_u c k \/ exists r, In r rs /\ In k (all_uris r)).
 Proof.
-  induction rs as [|r rs IH]; intros c R S H; simpl in H.
-  - inversion H; subst. repeat split; auto.
+  induction rs as [|r rs IH]; intros c R S H; [simpl in H|rewrite absorb_cons in H].
+  - inversion H; subst. refine (conj S (conj _ (conj _ (conj _ _)))); auto.
     + intros y Hy. exists y. split; auto. apply continues_refl.
     + intros r [].
-  - destruct (add_record c r sens true) as [c1|e] eqn:E; simpl in H; [|unfold absorb in H; rewrite absorb_raise in H; discriminate].
+  - destruct (add_record c r sens true) as [c1|e] eqn:E; [|rewrite absorb_raise in H; discriminate].
     pose proof (add_record_swf fold_c c r sens true c1 S E) as S1.
     destruct (step_facts c r sens c1 S E) as (F1 & (yr & Hyr & Fp & Fu & _) & F3).
-    destruct (IH c1 R S1 H) as (SR & G1 & G2 & G3 & G4). repeat split; auto.
+    destruct (IH c1 R S1 H) as (SR & G1 & G2 & G3 & G4). refine (conj SR (conj _ (conj _ (conj _ _)))).
     + intros y Hy. destruct (F1 y Hy) as (y1 & Hy1 & C1). destruct (G1 y1 Hy1) as (y2 & Hy2 & C2).
       exists y2. split; auto. eapply continues_trans; eauto.
     + intros r0 [<-|Hr0]; [|apply G2; auto].
@@ -97,10 +99,10 @@ Qed.
 
 Lemma absorb_errors rs sens : forall c e, swf c -> absorb (Val c) rs sens = Raise e -> e = EValueError.
 Proof.
-  induction rs as [|r rs IH]; intros c e S H; simpl in H; [discriminate|].
-  destruct (add_record c r sens true) as [c1|e1] eqn:E; simpl in H.
-  - eapply IH; eauto. eapply add_record_swf; eauto.
-  - unfold absorb in H. rewrite absorb_raise in H. inversion H; subst. eapply add_record_reject; eauto.
+  induction rs as [|r rs IH]; intros c e S H; [simpl in H; discriminate|rewrite absorb_cons in H].
+  destruct (add_record c r sens true) as [c1|e1] eqn:E.
+  - apply (IH c1 e); auto. eapply add_record_swf; eauto.
+  - rewrite absorb_raise in H. inversion H; subst. eapply add_record_reject; eauto.
 Qed.
 
 (* C09_raise_or_wf *)
@@ -148,3 +150,198 @@ Proof.
     + unfold in_cs in E. apply existsb_exists in E as (q & Hq & E). simpl in E. apply str_eqb_eq in E. subst. apply (Du q); auto. right; auto.
 Qed.
 End C.
+
+Section C2.
+Variable fold_c : chr -> str.
+Notation add_record := (add_record fold_c).
+Notation matches_record := (matches_record fold_c).
+Notation absorb := (absorb fold_c).
+
+Lemma disjoint_no_match r r0 : disjoint_keys all_prefixes r r0 -> disjoint_keys all_uris r r0 -> matches_record true r r0 = false.
+Proof.
+  intros Dp Du. unfold Mutate.matches_record. apply orb_false_iff. split.
+  - destruct (existsb _ (all_prefixes r)) eqn:E; auto. apply existsb_exists in E as (p & Hp & E). exfalso.
+    apply orb_true_iff in E as [E|E].
+    + simpl in E. apply str_eqb_eq in E. apply (Dp p); auto. subst. left; auto.
+    + unfold in_cs in E. apply existsb_exists in E as (q & Hq & E). simpl in E. apply str_eqb_eq in E. subst. apply (Dp q); auto. right; auto.
+  - destruct (existsb _ (all_uris r)) eqn:E; auto. apply existsb_exists in E as (p & Hp & E). exfalso.
+    apply orb_true_iff in E as [E|E].
+    + simpl in E. apply str_eqb_eq in E. apply (Du p); auto. subst. left; auto.
+    + unfold in_cs in E. apply existsb_exists in E as (q & Hq & E). simpl in E. apply str_eqb_eq in E. subst. apply (Du q); auto. right; auto.
+Qed.
+
+Lemma pairwise_app_inv {A} (R : A -> A -> Prop) l1 l2 : pairwise R (l1 ++ l2) ->
+  pairwise R l1 /\ pairwise R l2 /\ forall a b, In a l1 -> In b l2 -> R a b.
+Proof.
+  induction l1 as [|x l1 IH]; simpl; intro H.
+  - repeat split; auto; [constructor|intros a b []].
+  - inversion H as [|? ? Hx Hl]; subst. destruct (IH Hl) as (A1 & A2 & A3). repeat split; auto.
+    + constructor; auto. intros b Hb. apply Hx. apply in_or_app; auto.
+    + intros a b [<-|Ha] Hb; auto. apply Hx. apply in_or_app; auto.
+Qed.
+
+(* absorbing pairwise-disjoint records case-sensitively never merges: they are appended in order *)
+Lemma absorb_strict rs : forall c, swf c ->
+  pairwise (disjoint_keys all_prefixes) (recs c ++ rs) -> pairwise (disjoint_keys all_uris) (recs c ++ rs) ->
+  exists c', absorb (Val c) rs true = Val c' /\ recs c' = recs c ++ rs /\ swf c'.
+Proof.
+  induction rs as [|r rs IH]; intros c S Pp Pu.
+  - exists c. rewrite app_nil_r. auto.
+  - rewrite absorb_cons.
+    assert (NM: forall r0, In r0 (recs c) -> matches_record true r r0 = false).
+    { intros r0 H0. apply disjoint_no_match; apply disjoint_keys_sym.
+      - destruct (pairwise_app_inv _ _ _ Pp) as (_ & _ & H). apply H; [auto|left; auto].
+      - destruct (pairwise_app_inv _ _ _ Pu) as (_ & _ & H). apply H; [auto|left; auto]. }
+    pose proof (add_record_cases fold_c c r true true S) as C.
+    assert (F: filter (matches_record true r) (recs c) = []).
+    { destruct (filter _ (recs c)) as [|x l] eqn:E; auto. exfalso.
+      assert (Hx: In x (filter (matches_record true r) (recs c))) by (rewrite E; left; auto).
+      apply filter_In in Hx as [H1 H2]. rewrite NM in H2; auto. discriminate. }
+    rewrite F in C. rewrite C.
+    destruct (IH (index c r (recs c ++ [r]))) as (c' & E' & R' & S').
+    + apply (swf_append fold_c c r true); auto.
+    + simpl. rewrite <- app_assoc. exact Pp.
+    + simpl. rewrite <- app_assoc. exact Pu.
+    + exists c'. split; auto. split; auto. rewrite R'. simpl. rewrite <- app_assoc. reflexivity.
+Qed.
+
+(* C09_singleton *)
+Theorem chain_singleton c : swf c -> exists R, chain fold_c [c] true = Val R /\ recs R = recs c /\ swf R.
+Proof.
+  intro S. rewrite chain_absorb by discriminate. simpl. rewrite app_nil_r.
+  destruct S as (W & Pp & Pu).
+  destruct (absorb_strict (recs c) empty_conv (empty_swf)) as (R & E & Er & SR); auto.
+  exists R. auto.
+Qed.
+
+(* C09_priority: in case-sensitive mode every record of the first converter survives with its canonical prefix,
+   canonical URI prefix and pattern, and keeps all its keys *)
+Theorem chain_priority c1 cs R : swf c1 -> chain fold_c (c1 :: cs) true = Val R ->
+  forall y, In y (recs c1) -> exists y', In y' (recs R) /\ continues y y'.
+Proof.
+  intros S H. rewrite chain_absorb in H by discriminate. simpl in H.
+  unfold ChainFacts.absorb in H. rewrite fold_left_app in H. fold (absorb (Val empty_conv) (recs c1) true) in H.
+  destruct S as (W & Pp & Pu).
+  destruct (absorb_strict (recs c1) empty_conv empty_swf) as (c' & E & Er & S'); auto.
+  rewrite E in H. fold (absorb (Val c') (flat_map recs cs) true) in H.
+  destruct (absorb_facts fold_c _ true c' R S' H) as (_ & G1 & _). intros y Hy. apply G1. rewrite Er. auto.
+Qed.
+Theorem chain_priority_expand c1 cs R p i st pa : swf c1 -> chain fold_c (c1 :: cs) true = Val R ->
+  (exists y, In y (recs c1) /\ In p (all_prefixes y)) ->
+  expand_pair R p i st pa = expand_pair c1 p i st pa.
+Proof.
+  intros S H (y & Hy & Hp).
+  destruct (chain_priority c1 cs R S H y Hy) as (y' & Hy' & (_ & Eu & _ & Kp & _)).
+  destruct (chain_outcome fold_c (c1 :: cs) true) as [E|(R' & E & SR)]; [congruence|]. rewrite H in E. inversion E; subst R'.
+  destruct S as (W1 & Pp1 & _). destruct SR as (WR & PpR & _).
+  unfold expand_pair, expand_reference. simpl.
+  rewrite (wf_pmap _ _ _ W1), (wf_pmap _ _ _ WR). unfold owner_by_prefix.
+  fold (owner all_prefixes (recs c1) p). fold (owner all_prefixes (recs R) p).
+  rewrite (owner_reg all_prefixes (recs c1) p y), (owner_reg all_prefixes (recs R) p y'); auto; try (apply pairwise_one_owner; auto).
+  simpl. rewrite Eu. reflexivity.
+Qed.
+
+(* ---- case-insensitive mode: no two records of the result hold keys equal up to case ---- *)
+Definition ci_disjoint (a b : record) : Prop :=
+  (forall ka kb, In ka (all_prefixes a) -> In kb (all_prefixes b) -> casefold fold_c ka <> casefold fold_c kb) /\
+  (forall ka kb, In ka (all_uris a) -> In kb (all_uris b) -> casefold fold_c ka <> casefold fold_c kb).
+Lemma ci_disjoint_sym a b : ci_disjoint a b -> ci_disjoint b a.
+Proof. intros [A B]. split; intros ka kb Ha Hb E; [eapply A|eapply B]; eauto. Qed.
+Lemma no_match_ci ext r : matches_record false ext r = false -> ci_disjoint ext r.
+Proof.
+  unfold Mutate.matches_record. intro H. apply orb_false_iff in H as [H1 H2]. split; intros ka kb Ha Hb E.
+  - pose proof (existsb_false _ _ H1 ka Ha) as H. apply orb_false_iff in H as [A B].
+    destruct Hb as [<-|Hb].
+    + unfold eq_cs in A. rewrite E, str_eqb_refl in A. discriminate.
+    + unfold in_cs in B. pose proof (existsb_false _ _ B kb Hb) as B'. unfold eq_cs in B'. rewrite E, str_eqb_refl in B'. discriminate.
+  - pose proof (existsb_false _ _ H2 ka Ha) as H. apply orb_false_iff in H as [A B].
+    destruct Hb as [<-|Hb].
+    + unfold eq_cs in A. rewrite E, str_eqb_refl in A. discriminate.
+    + unfold in_cs in B. pose proof (existsb_false _ _ B kb Hb) as B'. unfold eq_cs in B'. rewrite E, str_eqb_refl in B'. discriminate.
+Qed.
+
+Lemma ci_step c r c' : swf c -> pairwise ci_disjoint (recs c) -> add_record c r false true = Val c' -> pairwise ci_disjoint (recs c').
+Proof.
+  intros S P H. destruct (add_record_accept fold_c c r false true c' S H) as [[E NM]|(m & Hm & Hmm & _ & E & _ & _ & _ & Ap & Au)].
+  - rewrite E. apply pairwise_snoc; auto. intros b Hb. apply ci_disjoint_sym. apply no_match_ci. auto.
+  - rewrite E. unfold repl.
+    assert (ND: NoDup (recs c)) by (destruct S as (_ & Pp & _); eapply pairwise_nodup; [apply all_prefixes_ne|exact Pp]).
+    pose proof (add_record_cases fold_c c r false true S) as C.
+    assert (Ho: forall b, In b (recs c) -> b <> m -> matches_record false r b = false).
+    { destruct (filter (matches_record false r) (recs c)) as [|m0 [|m2 rest]] eqn:F.
+      - intros b Hb _. eapply filter_nil; eauto.
+      - destruct (filter_single _ _ _ ND F) as (Hm0 & _ & Ho0).
+        rewrite C in H. inversion H as [H']. 
+        assert (m0 = m).
+        { destruct (record_eq_dec m0 m); auto. exfalso. rewrite (Ho0 m Hm (not_eq_sym n)) in Hmm. discriminate. }
+        subst m0. auto.
+      - rewrite C in H. discriminate. }
+    apply (pairwise_replace _ ci_disjoint_sym (recs c) m (merge r m)); auto.
+    + intros b Hb. apply (isM_spec (recs c)); auto. apply S.
+    + intros b Hb Hne. destruct (no_match_ci r b (Ho b Hb Hne)) as [N1 N2].
+      pose proof (pairwise_in_neq _ ci_disjoint_sym _ m b P Hm Hb (not_eq_sym Hne)) as [M1 M2].
+      split; intros ka kb Ha Hkb.
+      * apply Ap in Ha as [Ha|Ha]; [apply M1|apply N1]; auto.
+      * apply Au in Ha as [Ha|Ha]; [apply M2|apply N2]; auto.
+Qed.
+Lemma ci_absorb rs : forall c R, swf c -> pairwise ci_disjoint (recs c) -> absorb (Val c) rs false = Val R -> pairwise ci_disjoint (recs R).
+Proof.
+  induction rs as [|r rs IH]; intros c R S P H; [simpl in H; inversion H; subst; auto|rewrite absorb_cons in H].
+  destruct (add_record c r false true) as [c1|e] eqn:E; [|rewrite absorb_raise in H; discriminate].
+  apply (IH c1 R); auto; [eapply add_record_swf; eauto|eapply ci_step; eauto].
+Qed.
+(* C09_fold_distinct *)
+Theorem chain_fold_distinct cs R : chain fold_c cs false = Val R -> pairwise ci_disjoint (recs R).
+Proof.
+  intro H. destruct cs as [|c0 cs']; [discriminate|]. rewrite chain_absorb in H by discriminate.
+  apply (ci_absorb (flat_map recs (c0 :: cs')) empty_conv R empty_swf); auto. constructor.
+Qed.
+End C2.
+
+(* ---- get_subconverter ---- *)
+Lemma pairwise_filter {A} (R : A -> A -> Prop) f l : pairwise R l -> pairwise R (filter f l).
+Proof.
+  induction 1 as [|a l Ha Hl IH]; simpl; [constructor|]. destruct (f a); auto. constructor; auto.
+  intros b Hb. apply filter_In in Hb as [Hb _]. auto.
+Qed.
+Definition keep (P : list str) (r : record) : bool := existsb (fun p => mem p P) (all_prefixes r).
+Theorem sub_ok c P : swf c -> exists S, get_subconverter c P = Val S /\ recs S = sort_records (filter (keep P) (recs c)) /\ swf S /\
+  forall q, conv_query q = true -> answer S q = spec_answer (filter (keep P) (recs c)) [58%N] q.
+Proof.
+  intros (W & Pp & Pu). unfold get_subconverter. fold (keep P).
+  destruct (mk_conv_ok [58%N] (filter (keep P) (recs c))) as [S HS].
+  - eapply pairwise_perm; [apply disjoint_keys_sym|symmetry; apply sort_perm|apply pairwise_filter; auto].
+  - eapply pairwise_perm; [apply disjoint_keys_sym|symmetry; apply sort_perm|apply pairwise_filter; auto].
+  - exists S. split; auto. split; [apply (c_recs _ _ _ HS)|]. split; [eapply mk_conv_swf; eauto|].
+    intros q Hq. apply (answer_spec _ _ _ HS q Hq).
+Qed.
+(* kept records answer as in the parent; dropped records' prefixes are unknown *)
+Theorem sub_owner c P p : swf c ->
+  owner_by_prefix (filter (keep P) (recs c)) p =
+  match owner_by_prefix (recs c) p with Some r => if keep P r then Some r else None | None => None end.
+Proof.
+  intros (W & Pp & Pu). pose proof (pairwise_one_owner _ _ Pp) as O.
+  unfold owner_by_prefix. fold (owner all_prefixes (filter (keep P) (recs c)) p). fold (owner all_prefixes (recs c) p).
+  destruct (owner all_prefixes (recs c) p) as [r|] eqn:E.
+  - apply find_some in E as [Hr Hm]. apply mem_In in Hm. destruct (keep P r) eqn:K.
+    + apply owner_reg; auto.
+      * intros r1 r2 k H1 H2. apply filter_In in H1 as [H1 _]. apply filter_In in H2 as [H2 _]. apply O; auto.
+      * apply filter_In; auto.
+    + apply owner_none. intros y Hy Hp. apply filter_In in Hy as [Hy Ky].
+      assert (y = r) by (apply (O y r p); auto). subst. congruence.
+  - apply owner_none. intros y Hy Hp. apply filter_In in Hy as [Hy _].
+    unfold owner in E. pose proof (find_none _ _ E y Hy) as Hn. simpl in Hn. apply mem_In in Hp. congruence.
+Qed.
+Theorem sub_longest c P u p r : swf c -> longest_match (recs c) u = Some (p, r) -> keep P r = true ->
+  longest_match (filter (keep P) (recs c)) u = Some (p, r).
+Proof.
+  intros (W & Pp & Pu) L K. apply longest_match_some in L as (Hr & Hp & Hpre & Hmax).
+  pose proof (pairwise_one_owner _ _ Pu) as O.
+  destruct (longest_match (filter (keep P) (recs c)) u) as [[p' r']|] eqn:E.
+  - apply longest_match_some in E as (Hr' & Hp' & Hpre' & Hmax').
+    apply filter_In in Hr' as [Hr' K'].
+    assert (length p = length p').
+    { apply Nat.le_antisymm; [apply (Hmax' p r); auto; apply filter_In; auto | apply (Hmax p' r'); auto]. }
+    assert (p' = p) by (eapply prefixb_same_len; eauto). subst p'. f_equal. f_equal. apply (O r' r p); auto.
+  - pose proof (longest_match_none _ _ E p r) as Hn. rewrite Hn in Hpre; [discriminate| apply filter_In; auto | auto].
+Qed.
